@@ -3,9 +3,11 @@
    (RenderContext.get / get_item), assign/capture/for/with/if/include/render/macro/call/increment/decrement,
    RenderContext.copy for isolated partials and macro bodies, disabled tags, the four undefined types and the
    strict/lax tolerance modes.  Shared model of C14, C15 and C16.  Executable definitions only (no proofs).
-   The model is that of the code AFTER the two C15 repairs (.work/fixes/C15-*.patch): `copy` builds an isolated scope on
-   the root globals, and render..for copies the context once per item; the old behaviours are kept as copy_old and
-   render_loop_old for the witnesses in Props/C15.v. *)
+   The model is that of the code AFTER the three C15 repairs (.work/fixes/C15-*.patch): `copy` builds an isolated scope on
+   the root globals, render..for copies the context once per item, and the block-scoped copy keeps the disabled tags; the old behaviours are kept as copy_old and
+   render_loop_old for the witnesses in Props/C15.v.  Round-3 additions: the block-scoped branch of copy with the
+   block / extends tags of liquid.extra (copy_block; copy_block_old is a seeded variant), the string feature flags
+   (flags, read through the context), the `has` array filter and abstract filters (FGen + filter_table). *)
 From Coq Require Import String Ascii.
 From LiquidVerif Require Import Prelude PyPrims.
 
@@ -77,6 +79,12 @@ Definition to_output (uk : ukind) (v : val) : res str :=
   | _ => Ok (py_str v)
   end.
 
+(* the two feature flags of the Environment that change how STRINGS are subscripted (read through context.env) *)
+Record flags := Flags { fl_first_last : bool;      (* string_first_and_last: s.first / s.last are the first / last character *)
+                        fl_sequences : bool }.     (* string_sequences: s[i] is a character; a for loop visits the characters *)
+Definition default_flags : flags := Flags false false.
+Definition char_val (ch : N) : val := VStr [ch].
+
 (* ------------------------------------------------------------- get_item *)
 Definition s_size : str := slit "size".
 Definition s_first : str := slit "first".
@@ -94,11 +102,12 @@ Definition py_index {A} (l : list A) (z : Z) : option A :=
   else if (0 <=? n + z)%Z then nth_error l (Z.to_nat (n + z)) else None.
 
 (* obj[key] for a defined obj; None = KeyError / TypeError / IndexError (strings are not subscriptable) *)
-Definition subscript (obj : val) (k : nkey) : option val :=
+Definition subscript (g : flags) (obj : val) (k : nkey) : option val :=
   match obj, k with
   | VDict d, KS s => alookup s d
   | VList l, KI z => py_index l z
   | VTuple l, KI z => py_index l z
+  | VStr s, KI z => if fl_sequences g then option_map char_val (py_index s z) else None
   | _, _ => None
   end.
 
@@ -109,46 +118,51 @@ Definition sized_len (v : val) : option Z :=
   end.
 
 (* RenderContext.get_item for a defined obj: size / first / last fall back to len / first item / last item *)
-Definition get_item (obj : val) (k : nkey) : option val :=
+Definition get_item (g : flags) (obj : val) (k : nkey) : option val :=
   match k with
   | KS s =>
       if str_eqb s s_size then
-        match subscript obj k with Some v => Some v | None => option_map VInt (sized_len obj) end
+        match subscript g obj k with Some v => Some v | None => option_map VInt (sized_len obj) end
       else if str_eqb s s_first then
-        match subscript obj k with
+        match subscript g obj k with
         | Some v => Some v
         | None => match obj with
                   | VDict ((k0, v0) :: _) => Some (VTuple [VStr k0; v0])
                   | VList (x :: _) => Some x
                   | VTuple (x :: _) => Some x
+                  | VStr s0 => if fl_first_last g then option_map char_val (hd_error s0) else None
                   | _ => None
                   end
         end
       else if str_eqb s s_last then
-        match subscript obj k with
+        match subscript g obj k with
         | Some v => Some v
-        | None => match obj with VList l => py_index l (-1) | VTuple l => py_index l (-1) | _ => None end
+        | None => match obj with
+                  | VList l => py_index l (-1) | VTuple l => py_index l (-1)
+                  | VStr s0 => if fl_first_last g then option_map char_val (py_index s0 (-1)) else None
+                  | _ => None
+                  end
         end
-      else subscript obj k
-  | _ => subscript obj k
+      else subscript g obj k
+  | _ => subscript g obj k
   end.
 
 Inductive step := SVal (v : val) | SMissing | SRaise.
 
 (* one segment of RenderContext.get: the key is probed for __liquid__ first; an undefined OBJECT returns
    itself from __getitem__ (default) or raises (all strict kinds) *)
-Definition step_item (uk : ukind) (obj kv : val) : step :=
+Definition step_item (g : flags) (uk : ukind) (obj kv : val) : step :=
   if is_undef kv && probe_raises uk then SRaise
   else match obj with
        | VUndef => if strict_kind uk then SRaise else SVal VUndef
-       | _ => match get_item obj (key_of_val kv) with Some v => SVal v | None => SMissing end
+       | _ => match get_item g obj (key_of_val kv) with Some v => SVal v | None => SMissing end
        end.
 
-Fixpoint walk (uk : ukind) (obj : val) (ks : list val) : res val :=
+Fixpoint walk (g : flags) (uk : ukind) (obj : val) (ks : list val) : res val :=
   match ks with
   | [] => Ok obj
-  | k :: r => match step_item uk obj k with
-              | SVal v => walk uk v r
+  | k :: r => match step_item g uk obj k with
+              | SVal v => walk g uk v r
               | SMissing => Ok VUndef
               | SRaise => Err EUndefined
               end
@@ -162,7 +176,10 @@ Record path := Path { p_root : str; p_segs : list seg }.
 
 Inductive expr := ELit (l : scalar) | EPath (p : path).
 
-Inductive filt := FUpcase | FSize | FDefault (l : scalar).
+Inductive filt :=
+| FUpcase | FSize | FDefault (l : scalar)
+| FHas (attr : str) (value : option expr)          (* arr | has: 'attr' [, value] *)
+| FGen (id : N) (args : list expr).                (* any other filter: an abstract function of its evaluated arguments *)
 Inductive fexpr := FPlain (e : expr) (fs : list filt).
 
 Inductive atom := CTruthy (e : expr) | CEq (e : expr) (l : scalar) | CNe (e : expr) (l : scalar) | CLt (e : expr) (n : Z).
@@ -183,7 +200,9 @@ Inductive node :=
 | NRender (name : str) (var : option (path * bool * option str)) (args : list (str * expr))   (* bool: `for` *)
 | NMacro (name : str) (params : list (str * option expr)) (body : list node)
 | NCall (name : str) (kws : list (str * expr))
-| NIncr (x : str) | NDecr (x : str).
+| NIncr (x : str) | NDecr (x : str)
+| NBlock (name : str) (body : list node)                              (* liquid.extra: {% block name %} *)
+| NExtends (base : str) (blocks : list (str * list node)).            (* {% extends 'base' %} followed by the child's blocks *)
 
 Inductive tag := TInclude | TBlock.
 Definition tag_eqb (a b : tag) : bool := match a, b with TInclude, TInclude | TBlock, TBlock => true | _, _ => false end.
@@ -197,18 +216,23 @@ Record ctx := Ctx {
   base : list ns;                       (* the root context's globals (RenderContext.base_globals) *)
   counters : list (str * Z);
   macros : list (str * (list (str * option expr) * list node));
-  disabled : list tag }.
+  disabled : list tag;
+  overrides : option (list (str * list node));   (* tag_namespace["extends"]: Some = rendering an inheritance chain *)
+  cfg : flags }.                                 (* context.env's string flags *)
 
 Definition set_scopes (c : ctx) (s : list ns) : ctx :=
-  Ctx s (locals c) (gl c) (base c) (counters c) (macros c) (disabled c).
+  Ctx s (locals c) (gl c) (base c) (counters c) (macros c) (disabled c) (overrides c) (cfg c).
 Definition set_locals (c : ctx) (l : ns) : ctx :=
-  Ctx (scopes c) l (gl c) (base c) (counters c) (macros c) (disabled c).
+  Ctx (scopes c) l (gl c) (base c) (counters c) (macros c) (disabled c) (overrides c) (cfg c).
 Definition set_gl (c : ctx) (g : list ns) : ctx :=
-  Ctx (scopes c) (locals c) g (base c) (counters c) (macros c) (disabled c).
+  Ctx (scopes c) (locals c) g (base c) (counters c) (macros c) (disabled c) (overrides c) (cfg c).
 Definition set_counters (c : ctx) (k : list (str * Z)) : ctx :=
-  Ctx (scopes c) (locals c) (gl c) (base c) k (macros c) (disabled c).
+  Ctx (scopes c) (locals c) (gl c) (base c) k (macros c) (disabled c) (overrides c) (cfg c).
 Definition set_macros (c : ctx) (m : list (str * (list (str * option expr) * list node))) : ctx :=
-  Ctx (scopes c) (locals c) (gl c) (base c) (counters c) m (disabled c).
+  Ctx (scopes c) (locals c) (gl c) (base c) (counters c) m (disabled c) (overrides c) (cfg c).
+
+Definition set_overrides (c : ctx) (o : option (list (str * list node))) : ctx :=
+  Ctx (scopes c) (locals c) (gl c) (base c) (counters c) (macros c) (disabled c) o (cfg c).
 
 Definition push (c : ctx) (n : ns) : ctx := set_scopes c (n :: scopes c).            (* ReadOnlyChainMap.push *)
 Definition pop (c : ctx) : ctx := set_scopes c (tl (scopes c)).                       (* ReadOnlyChainMap.pop *)
@@ -222,10 +246,10 @@ Definition assign (c : ctx) (x : str) (v : val) : ctx := set_locals c (dict_set 
 (* RenderContext.copy (block_scope = False): fresh locals, counters and tag state; the namespace in front of
    the ROOT globals; the given disabled tags *)
 Definition copy (c : ctx) (n : ns) (dis : list tag) : ctx :=
-  Ctx [] [] (n :: base c) (base c) [] [] dis.
+  Ctx [] [] (n :: base c) (base c) [] [] dis None (cfg c).
 (* before the repair: in front of the CALLER's globals chain *)
 Definition copy_old (c : ctx) (n : ns) (dis : list tag) : ctx :=
-  Ctx [] [] (n :: gl c) (base c) [] [] dis.
+  Ctx [] [] (n :: gl c) (base c) [] [] dis None (cfg c).
 
 Definition is_disabled (t : tag) (c : ctx) : bool := existsb (tag_eqb t) (disabled c).
 
@@ -250,6 +274,19 @@ Definition resolve (c : ctx) (x : str) : option val :=
 Definition counter_ns (c : ctx) : ns := map (fun p => (fst p, VInt (snd p))) (counters c).
 Definition chain (c : ctx) : list ns := scopes c ++ [locals c] ++ gl c ++ [builtin_ns] ++ [counter_ns c].
 
+(* RenderContext.copy (block_scope = True), used for an overridden {% block %}: fresh locals, counters and tag state; the
+   namespace (the `block` drop, opaque here) in front of the WHOLE scope chain of the template being extended; the root
+   globals, the block stacks and (after the repair C15-block-scope-drops-disabled-tags) the disabled tags are shared *)
+Definition s_block : str := slit "block".
+Definition copy_block (c : ctx) : ctx :=
+  Ctx [] [] ([(s_block, VBuiltin)] :: chain c) (base c) [] [] (disabled c) (overrides c) (cfg c).
+(* before that repair: no disabled tags in the copy *)
+Definition copy_block_enabled_old (c : ctx) : ctx :=
+  Ctx [] [] ([(s_block, VBuiltin)] :: chain c) (base c) [] [] [] (overrides c) (cfg c).
+(* a seeded variant: base_globals not propagated, so the root globals of the copy are its own globals chain *)
+Definition copy_block_old (c : ctx) : ctx :=
+  Ctx [] [] ([(s_block, VBuiltin)] :: chain c) ([(s_block, VBuiltin)] :: chain c) [] [] (disabled c) (overrides c) (cfg c).
+
 (* Environment.make_globals: {**env.globals, **template_globals} *)
 Definition merge_globals (eg tg : ns) : ns := fold_left (fun acc p => dict_set (fst p) (snd p) acc) tg eg.
 
@@ -257,7 +294,7 @@ Definition merge_globals (eg tg : ns) : ns := fold_left (fun acc p => dict_set (
 Definition key_val (k : key) : val := match k with KName s => VStr s | KIndex z => VInt z end.
 
 Definition eval_simple (uk : ukind) (c : ctx) (root : str) (ks : list key) : res val :=
-  match resolve c root with None => Ok VUndef | Some obj => walk uk obj (map key_val ks) end.
+  match resolve c root with None => Ok VUndef | Some obj => walk (cfg c) uk obj (map key_val ks) end.
 
 (* Path.evaluate: nested paths are evaluated first, then RenderContext.get walks the segments *)
 Fixpoint eval_segs (uk : ukind) (c : ctx) (ss : list seg) : res (list val) :=
@@ -271,7 +308,7 @@ Fixpoint eval_segs (uk : ukind) (c : ctx) (ss : list seg) : res (list val) :=
 
 Definition eval_path (uk : ukind) (c : ctx) (p : path) : res val :=
   do ks <- eval_segs uk c (p_segs p);
-  match resolve c (p_root p) with None => Ok VUndef | Some obj => walk uk obj ks end.
+  match resolve c (p_root p) with None => Ok VUndef | Some obj => walk (cfg c) uk obj ks end.
 
 Definition eval_expr (uk : ukind) (c : ctx) (e : expr) : res val :=
   match e with ELit l => Ok (val_of_scalar l) | EPath p => eval_path uk c p end.
@@ -279,7 +316,90 @@ Definition eval_expr (uk : ukind) (c : ctx) (e : expr) : res val :=
 (* str.upper on ASCII *)
 Definition upper (s : str) : str := map (fun ch => if ((97 <=? ch) && (ch <=? 122))%N then (ch - 32)%N else ch) s.
 
-Definition apply_filter (uk : ukind) (f : filt) (v : val) : res val :=
+(* ---- the `has` array filter: @sequence_filter, then any(item[attr] == value) / any(item[attr] is truthy) ---- *)
+Fixpoint flat (v : val) : list val :=          (* filter.flatten (nesting below its level limit of 5) *)
+  match v with
+  | VList l => concat (map flat l)
+  | VTuple l => concat (map flat l)
+  | _ => [v]
+  end.
+
+Fixpoint is_prefix (a s : str) : bool :=
+  match a, s with [], _ => true | x :: a', y :: s' => (x =? y)%N && is_prefix a' s' | _, [] => false end.
+Fixpoint is_infix (a s : str) : bool :=
+  is_prefix a s || match s with [] => false | _ :: s' => is_infix a s' end.
+
+Inductive item_attr := IVal (x : val) | INil | IErr.
+(* array._getitem(item, attr) for a string attr *)
+Definition getattr_item (itm : val) (attr : str) : item_attr :=
+  match itm with
+  | VDict d => IVal (match alookup attr d with Some x => x | None => VNil end)
+  | VNil => INil                                    (* FilterItemTypeError: the filter returns nil *)
+  | VStr s => IVal (if is_infix attr s then VStr attr else VNil)
+  | VList _ | VTuple _ => IVal VNil
+  | _ => IErr                                       (* TypeError -> FilterArgumentError *)
+  end.
+
+Fixpoint has_any (test : val -> bool) (attr : str) (items : list val) : res val :=
+  match items with
+  | [] => Ok (VBool false)
+  | itm :: r => match getattr_item itm attr with
+                | IErr => Err EFilterArg
+                | INil => Ok VNil
+                | IVal x => if test x then Ok (VBool true) else has_any test attr r
+                end
+  end.
+
+(* Python == between an item's attribute and a scalar argument (True == 1, False == 0) *)
+Definition num_of (v : val) : option Z :=
+  match v with VBool b => Some (if b then 1 else 0)%Z | VInt z => Some z | _ => None end.
+Definition py_eq (x w : val) : bool :=
+  match num_of x, num_of w with
+  | Some a, Some b => (a =? b)%Z
+  | None, None => match x, w with VStr a, VStr b => str_eqb a b | VNil, VNil => true | _, _ => false end
+  | _, _ => false
+  end.
+(* x not in (False, None) *)
+Definition attr_present (x : val) : bool :=
+  match x with VNil => false | _ => match num_of x with Some 0%Z => false | _ => true end end.
+
+Definition has_input (uk : ukind) (v : val) : res (list val) :=
+  match v with
+  | VUndef => if strict_kind uk then Err EUndefined else Ok []
+  | VList _ | VTuple _ => Ok (flat v)
+  | _ => Ok [v]
+  end.
+
+(* `if value is not None and not is_undefined(value)`: is_undefined is isinstance against an ABC, which reads
+   value.__class__ -- UndefinedError for StrictUndefined / StrictDefaultUndefined; otherwise undefined counts as nil *)
+Definition has_filter (uk : ukind) (v : val) (attr : str) (w : val) : res val :=
+  do items <- has_input uk v;
+  match w with
+  | VUndef => if probe_raises uk then Err EUndefined else has_any attr_present attr items
+  | VNil => has_any attr_present attr items
+  | _ => has_any (fun x => py_eq x w) attr items
+  end.
+(* a seeded variant without the is_undefined guard: the item attribute is compared with the undefined OBJECT, whose
+   __eq__ differs per type (default: equal to nil/undefined; FalsyStrict: equal to false only; the others raise) *)
+Definition has_filter_unguarded (uk : ukind) (v : val) (attr : str) (w : val) : res val :=
+  do items <- has_input uk v;
+  match w with
+  | VUndef => match uk with
+              | UDefault => has_any (fun x => match x with VNil | VUndef => true | _ => false end) attr items
+              | UFalsy => has_any (fun x => match x with VBool false => true | _ => false end) attr items
+              | _ => match items with [] => Ok (VBool false) | _ => Err EUndefined end
+              end
+  | VNil => has_any attr_present attr items
+  | _ => has_any (fun x => py_eq x w) attr items
+  end.
+
+(* the semantics of the abstract filters: id, undefined type, left value, evaluated arguments *)
+Definition filter_table := N -> ukind -> val -> list val -> res val.
+
+Fixpoint eval_args (uk : ukind) (c : ctx) (es : list expr) : res (list val) :=
+  match es with [] => Ok [] | e :: r => do v <- eval_expr uk c e; do vs <- eval_args uk c r; Ok (v :: vs) end.
+
+Definition apply_filter (ft : filter_table) (uk : ukind) (c : ctx) (f : filt) (v : val) : res val :=
   match f with
   | FUpcase =>                                  (* @string_filter: None -> "", str(val) otherwise *)
       match v with
@@ -298,13 +418,17 @@ Definition apply_filter (uk : ukind) (f : filt) (v : val) : res val :=
       | VNil | VBool false | VStr [] | VList [] | VDict [] => Ok (val_of_scalar l)
       | _ => Ok v
       end
+  | FHas attr value =>
+      do w <- (match value with Some e => eval_expr uk c e | None => Ok VNil end);
+      has_filter uk v attr w
+  | FGen id args => do ws <- eval_args uk c args; ft id uk v ws
   end.
 
-Fixpoint apply_filters (uk : ukind) (fs : list filt) (v : val) : res val :=
-  match fs with [] => Ok v | f :: r => do v' <- apply_filter uk f v; apply_filters uk r v' end.
+Fixpoint apply_filters (ft : filter_table) (uk : ukind) (c : ctx) (fs : list filt) (v : val) : res val :=
+  match fs with [] => Ok v | f :: r => do v' <- apply_filter ft uk c f v; apply_filters ft uk c r v' end.
 
-Definition eval_fexpr (uk : ukind) (c : ctx) (e : fexpr) : res val :=
-  match e with FPlain e0 fs => do v <- eval_expr uk c e0; apply_filters uk fs v end.
+Definition eval_fexpr (ft : filter_table) (uk : ukind) (c : ctx) (e : fexpr) : res val :=
+  match e with FPlain e0 fs => do v <- eval_expr uk c e0; apply_filters ft uk c fs v end.
 
 (* is_truthy *)
 Definition truthy (uk : ukind) (v : val) : res bool :=
@@ -354,12 +478,11 @@ Fixpoint eval_kwargs (uk : ukind) (c : ctx) (args : list (str * expr)) (acc : ns
   end.
 
 (* LoopExpression._to_iter *)
-Definition items_of (uk : ukind) (v : val) : res (list val) :=
+Definition items_of (g : flags) (uk : ukind) (v : val) : res (list val) :=
   match v with
   | VUndef => if strict_kind uk then Err EUndefined else Ok []
   | VDict d => Ok (map (fun p => VTuple [VStr (fst p); snd p]) d)
-  | VStr [] => Ok []
-  | VStr s => Ok [VStr s]
+  | VStr s => if fl_sequences g then Ok (map char_val s) else match s with [] => Ok [] | _ => Ok [VStr s] end
   | VList l => Ok l
   | VTuple l => Ok l
   | _ => Ok []
@@ -367,7 +490,7 @@ Definition items_of (uk : ukind) (v : val) : res (list val) :=
 
 Definition eval_iter (uk : ukind) (c : ctx) (it : iter) : res (list val) :=
   match it with
-  | IPath p => do v <- eval_path uk c p; items_of uk v
+  | IPath p => do v <- eval_path uk c p; items_of (cfg c) uk v
   | IRange a b => Ok (map VInt (zrange_incl a b))
   end.
 
@@ -490,7 +613,7 @@ Definition s_partial : str := slit "partial".
 Definition run_template (md : mode) (partial propagate : bool) (run : node -> ctx -> outcome) (body : list node) (c : ctx) : outcome :=
   after (tmpl_nodes md propagate run body (push c [(s_partial, VBool partial)])) pop.
 
-Record env := Env { e_mode : mode; e_uk : ukind; e_loader : list (str * list node) }.
+Record env := Env { e_mode : mode; e_uk : ukind; e_loader : list (str * list node); e_filters : filter_table }.
 
 Definition counter (c : ctx) (x : str) : Z := match alookup x (counters c) with Some n => n | None => 0%Z end.
 
@@ -513,8 +636,8 @@ Definition exec_step (E : env) (run : node -> ctx -> outcome) (n : node) (c : ct
     let uk := e_uk E in
     match n with
     | NText s => Done c s Normal
-    | NOut e => lift (eval_fexpr uk c e) c (fun v => lift (to_output uk v) c (fun s => Done c s Normal))
-    | NAssign x e => lift (eval_fexpr uk c e) c (fun v => Done (assign c x v) [] Normal)
+    | NOut e => lift (eval_fexpr (e_filters E) uk c e) c (fun v => lift (to_output uk v) c (fun s => Done c s Normal))
+    | NAssign x e => lift (eval_fexpr (e_filters E) uk c e) c (fun v => Done (assign c x v) [] Normal)
     | NCapture x body =>
         match seq_nodes run body c with
         | Fuel => Fuel
@@ -595,6 +718,22 @@ Definition exec_step (E : env) (run : node -> ctx -> outcome) (n : node) (c : ct
         end
     | NIncr x => let v := counter c x in Done (set_counters c (dict_set x (v + 1)%Z (counters c))) (Z_to_str v) Normal
     | NDecr x => let v := (counter c x - 1)%Z in Done (set_counters c (dict_set x v (counters c))) (Z_to_str v) Normal
+    | NBlock name body =>
+        if is_disabled TBlock c then Done c [] (Raise EDisabledTag) else
+        match overrides c with
+        | None =>                                   (* the template is rendered directly: a shared scope with `block` pushed *)
+            after (seq_nodes run body (push c [(s_block, VBuiltin)])) pop
+        | Some ovs =>                               (* the most-derived definition, in a block-scoped copy of the context *)
+            let b := match alookup name ovs with Some b' => b' | None => body end in
+            match seq_nodes run b (copy_block c) with Fuel => Fuel | Done _ out s => Done c out s end
+        end
+    | NExtends bname blocks =>
+        match alookup bname (e_loader E) with
+        | None => Done c [] (Raise ENotFound)
+        | Some body =>
+            after (run_template (e_mode E) false false run body (set_overrides c (Some blocks)))
+                  (fun c1 => set_overrides c1 None)
+        end
     end.
 
 (* fuel bounds the nesting depth of blocks and partials; exhausting it is the separate outcome Fuel *)
@@ -606,16 +745,18 @@ Fixpoint exec (fuel : nat) (E : env) (n : node) (c : ctx) {struct fuel} : outcom
 
 (* ------------------------------------------------------------------ the case the harness runs *)
 Record case := Case {
-  k_mode : mode; k_uk : ukind;
+  k_mode : mode; k_uk : ukind; k_flags : flags;
   k_loader : list (str * list node);
   k_args : ns; k_matter : ns; k_tglobals : ns; k_eglobals : ns;
   k_body : list node }.
 
 Definition top_globals (k : case) : list ns := [k_args k; k_matter k; merge_globals (k_eglobals k) (k_tglobals k)].
 
-Definition init_ctx (k : case) : ctx := Ctx [] [] (top_globals k) (top_globals k) [] [] [].
+Definition init_ctx (k : case) : ctx := Ctx [] [] (top_globals k) (top_globals k) [] [] [] None (k_flags k).
 
-Definition case_env (k : case) : env := Env (k_mode k) (k_uk k) (k_loader k).
+(* the generated cases use the modelled filters only *)
+Definition no_filters : filter_table := fun _ _ v _ => Ok v.
+Definition case_env (k : case) : env := Env (k_mode k) (k_uk k) (k_loader k) no_filters.
 
 Definition run_fuel : nat := 40.     (* bounds the NESTING depth of blocks and partials only *)
 
@@ -642,7 +783,7 @@ Definition res_str_eqb (a b : res str) : bool :=
 
 (* the same case under another undefined type (C16) *)
 Definition with_uk (k : case) (u : ukind) : case :=
-  Case (k_mode k) u (k_loader k) (k_args k) (k_matter k) (k_tglobals k) (k_eglobals k) (k_body k).
+  Case (k_mode k) u (k_flags k) (k_loader k) (k_args k) (k_matter k) (k_tglobals k) (k_eglobals k) (k_body k).
 
 (* ---- the old copy, for the recorded defect: an interpreter identical except for copy_old in render ---- *)
 (* one level is enough for the witness: what a partial rendered from inside another partial resolves *)
